@@ -147,6 +147,12 @@ func (e *Engine) zeroShape(st *State, t types.Type) Value {
 	case *types.Slice:
 		return SliceV{Ref: "0", Off: "0", Len: "0", Cap: "0", Elem: u.Elem()}
 	}
+	// components without an SMT image (maps, pointers, interfaces, functions) read back as
+	// arbitrary values of their type
+	switch t.Underlying().(type) {
+	case *types.Map, *types.Pointer, *types.Interface:
+		return e.fresh(st, t, "elem")
+	}
 	return OpaqueV{"component of type " + t.String() + " stored in a slice"}
 }
 
